@@ -250,15 +250,22 @@ def run_history(b: Batch, platform, cfg, k32=None):
         watch = ObservedWatch(os.fsencode(root_abs) if as_bytes else root_abs, recursive=recursive)
         if as_bytes:
             b.count("fsevents_histories_with_bytes_root")
+        # a filter that names a base class accepts every event: the stream must be the same as without a filter
+        filt = None
+        if cfg.get("base_filter"):
+            from watchdog.events import FileSystemEvent
+
+            filt = [FileSystemEvent]
+            b.count("histories_with_base_class_filter")
         if platform == "windows":
             from watchdog.observers.read_directory_changes import WindowsApiEmitter
 
-            em = WindowsApiEmitter(q, watch)
+            em = WindowsApiEmitter(q, watch, event_filter=filt)
             em.on_thread_start()
         else:
             from watchdog.observers.fsevents import FSEventsEmitter
 
-            em = FSEventsEmitter(q, watch)
+            em = FSEventsEmitter(q, watch, event_filter=filt)
         adapter = Adapter(root_abs, recursive)
         tree = dict(u.walk_root())
         pacer = Pacer()
@@ -621,7 +628,7 @@ def run_decoders(b: Batch, r, n):
 
 
 def make_cfg(r, seed, platform):
-    cfg = {"seed": seed, "recursive": r.random() < 0.7, "n_ops": r.randint(5, 18), "n_root": r.randint(1, 5), "n_out": r.randint(2, 4), "cut_p": r.choice([0.0, 0.2, 0.5])}
+    cfg = {"seed": seed, "base_filter": r.random() < 0.25, "recursive": r.random() < 0.7, "n_ops": r.randint(5, 18), "n_root": r.randint(1, 5), "n_out": r.randint(2, 4), "cut_p": r.choice([0.0, 0.2, 0.5])}
     if platform == "fsevents":
         cfg["sticky"] = r.random() < 0.35
         cfg["reuse"] = r.random() < 0.3
